@@ -430,10 +430,18 @@ impl<'a> TimeZoneRef<'a> {
             return Err(TzError::OutOfRange);
         }
 
-        let index = match binary_search_leap_seconds(self.leap_seconds, unix_leap_time - 1) {
+        let mut index = match binary_search_leap_seconds(self.leap_seconds, unix_leap_time - 1) {
             Ok(x) => x + 1,
             Err(x) => x,
         };
+
+        // A negative leap second removes a second instead of inserting one, so its correction is already applied at its occurrence time
+        if index < self.leap_seconds.len() && self.leap_seconds[index].unix_leap_time == unix_leap_time {
+            let previous_correction = if index > 0 { self.leap_seconds[index - 1].correction } else { 0 };
+            if self.leap_seconds[index].correction < previous_correction {
+                index += 1;
+            }
+        }
 
         let correction = if index > 0 { self.leap_seconds[index - 1].correction } else { 0 };
 
